@@ -309,6 +309,13 @@ class LRI(dict):
                 setitem(k, F[k])
             return
 
+    def __ior__(self, other):
+        # dict.__ior__ would write to the underlying dict directly,
+        # bypassing the linked list and the max_size check
+        with self._lock:
+            self.update(other)
+            return self
+
     def __eq__(self, other):
         with self._lock:
             if self is other:
